@@ -54,7 +54,9 @@ class Ctx:
     def __init__(self, pid, tier, seed, level="model_checking"):
         self.pid, self.tier, self.seed, self.level = pid, tier, seed, level
         self.t0 = time.time()
-        self.out = os.path.join(VERIF, "out", pid)
+        # VERIF_TAG: suffix for scratch runs (seeded changes, mutants) so that they neither clash with nor overwrite the real run's files
+        self.tag = os.environ.get("VERIF_TAG", "")
+        self.out = os.path.join(VERIF, "out", pid + self.tag)
         shutil.rmtree(self.out, ignore_errors=True)
         os.makedirs(self.out)
         os.makedirs(os.path.join(VERIF, "out", "replay"), exist_ok=True)
@@ -251,7 +253,7 @@ class Ctx:
             k = 0
             for g, items in list(groups.items())[:20]:
                 k += 1
-                p = os.path.join(VERIF, "out", "replay", "%s_%d.json" % (self.pid, k))
+                p = os.path.join(VERIF, "out", "replay", "%s%s_%d.json" % (self.pid, self.tag, k))
                 with open(p, "w") as f:
                     json.dump(dict(property=self.pid, sig=items[0]["sig"], what=items[0]["what"], case=items[0]["case"],
                                    similar_cases=len(items)), f, indent=1)
@@ -267,7 +269,11 @@ class Ctx:
         cov.update(self.notes)
         ev = dict(property_id=self.pid, tier=self.tier, seed=int(self.seed), level=self.level, coverage=cov,
                   assumptions=self.assumptions, wall_s=round(wall, 1), violations=len(new))
-        with open(os.path.join(VERIF, "evidence", "%s.json" % self.pid), "w") as f:
+        # evidence/<id>.json describes runs of the registered commands on /repo's tree; replays and scratch-source runs report elsewhere
+        scratch = bool(self.tag) or bool(getattr(self, "replay", None)) or os.path.realpath(build.src_root()) != os.path.realpath("/repo")
+        evp = os.path.join(VERIF, "out", "scratch_evidence", "%s%s.json" % (self.pid, self.tag)) if scratch else os.path.join(VERIF, "evidence", "%s.json" % self.pid)
+        os.makedirs(os.path.dirname(evp), exist_ok=True)
+        with open(evp, "w") as f:
             json.dump(ev, f, indent=1)
         print("%s %s: states=%d transitions=%d impl_traces=%d evaluations=%d nontrivial=%d rejects=%d (known %d, new %d) %.0fs" % (
             self.pid, self.tier, self.states, self.transitions, self.traces, self.evaluations, cov["distinct_nontrivial"],
